@@ -18,7 +18,7 @@ for d in sorted(os.listdir(os.path.join(V, "seeded"))):
         print(d, "does not apply:", r.stderr[:200]); continue
     t0 = time.time()
     try:
-        p = subprocess.run(["./run", pid, tier], cwd=V, capture_output=True, text=True)
+        p = subprocess.run(["./run", pid, tier], cwd=V, capture_output=True, text=True, env=dict(os.environ, VERIF_EVIDENCE_DIR="/tmp/seed_matrix_evidence"))
     finally:
         subprocess.run(["git", "-C", "/repo", "checkout", "--", "."])
     sigs = sorted(set(re.findall(r"^  signature: (.*)$", p.stdout, re.M)))
